@@ -6,10 +6,12 @@ statements (others, Sub, WF, SnapOK, ViewIs, Fresh, NoTheft, NoReuse, Covered): 
 Domain of the model: case-normal names (the state store lower-cases index keys, the importer's Go maps do not:
 names that differ only in case break the import — known finding `import:names-differing-only-in-case`, replayed
 on the implementation by the harness corpus on every run, not expressible in this model).
+Section 6 is about the exporting side's duplicate suppression (model CV/PeerExport.lean).
 All theorems quantify over arbitrary catalogs (any number of peers, nodes, instances, checks), arbitrary
 snapshots and arbitrary message sequences; there is no size bound anywhere.
 -/
 import CV.Proofs.PeerGo
+import CV.Proofs.PeerExport
 set_option linter.unusedSectionVars false
 set_option linter.unusedSimpArgs false
 namespace CV.Peer
@@ -468,3 +470,49 @@ example : exportedFor [⟨"web", ["p1"]⟩, ⟨"*", ["p2", "p3"]⟩, ⟨"consul"
 example : exportedFor [⟨"web", ["p1"]⟩, ⟨"*", ["p2", "p3"]⟩, ⟨"consul", ["p1"]⟩] ["api", "consul", "web"] "p9" = [] := by decide
 
 end CV.Peer
+
+/-! ## 6. The exporting side sends what it exports: duplicate suppression never hides an undelivered snapshot
+
+Model: CV/PeerExport.lean (`handleEvent` of the subscription manager with `sendPendingEvents` /
+`cleanupEventVersions`; ghost fields `peer` = what the importer holds after everything that was sent, `offered` =
+the last snapshot the running watch of a service produced). -/
+namespace CV.PeerX
+
+/-- After ANY sequence of exported-service-list events and service snapshots, for every service that is currently
+    exported (watched), the last snapshot its watch produced since the watch was (re)started is what the importing
+    side holds: nothing an exported service offers is withheld — with the clean-up of the code as it is. -/
+theorem export_delivers (evs : List Ev) (n : String) (h : Nat)
+    (hw : n ∈ (run .always {} evs).watched) (ho : get (run .always {} evs).offered n = some h) :
+    get (run .always {} evs).peer n = some h :=
+  (inv_run evs {} inv_init).off n h hw ho
+
+/-- A snapshot is suppressed as a duplicate only if the importing side holds exactly that snapshot. -/
+theorem export_suppresses_only_delivered (evs : List Ev) (n : String) (h : Nat)
+    (hs : (step .always (run .always {} evs) (.data n h)).2 = false) :
+    get (run .always {} evs).peer n = some h := by
+  have hi := inv_run evs {} inv_init
+  simp only [step] at hs
+  split at hs
+  · rename_i hdup; exact hi.ver n h hdup
+  · cases hs
+
+/-- export `a`; swap `a` for `b` in one write; export `a` again with unchanged instances -/
+def cxSwap : List Ev := [.list ["a"], .data "a" 1, .list ["b"], .data "b" 2, .list ["a", "b"], .data "a" 1]
+
+/-- Counterexample for the variant that cleans up only when the number of watched services shrank: the stale
+    version of `a` survives the swap, the restarted watch of `a` produces the same hash, it is dropped as a
+    duplicate, and the importer — which deleted `a` when the list `[b]` arrived — holds nothing for `a`. -/
+theorem export_delivers_counterexample_cleanup_if_shrunk :
+    "a" ∈ (run .ifShrunk {} cxSwap).watched ∧ get (run .ifShrunk {} cxSwap).offered "a" = some 1 ∧
+    get (run .ifShrunk {} cxSwap).peer "a" = none := by decide
+
+/-- … and for the variant that never cleans up (a plain un-export followed by a re-export is enough). -/
+theorem export_delivers_counterexample_no_cleanup :
+    "a" ∈ (run .never {} [.list ["a"], .data "a" 1, .list [], .list ["a"], .data "a" 1]).watched ∧
+    get (run .never {} [.list ["a"], .data "a" 1, .list [], .list ["a"], .data "a" 1]).offered "a" = some 1 ∧
+    get (run .never {} [.list ["a"], .data "a" 1, .list [], .list ["a"], .data "a" 1]).peer "a" = none := by decide
+
+-- non-vacuity: with the code as it is the same history delivers `a` again
+example : get (run .always {} cxSwap).peer "a" = some 1 ∧ get (run .always {} cxSwap).peer "b" = some 2 := by decide
+
+end CV.PeerX
